@@ -347,6 +347,14 @@ impl Array8 {
     }
 }
 
+#[cfg(feature = "verif-hooks")]
+impl Array8 {
+    /// Verification hook: (num_zeros, estimator).
+    pub(super) fn verif_parts(&self) -> (u32, &HipEstimator) {
+        (self.num_zeros, &self.estimator)
+    }
+}
+
 #[cfg(test)]
 mod tests {
     use super::*;
